@@ -241,7 +241,9 @@ impl Opcode for JumpI {
 
                 // If it is an error that only affects the potential _target_ thread, we need to
                 // store it and continue execution on the current thread.
-                vm.store_error(result);
+                if !vm.config().permissive_errors {
+                    vm.store_error(result);
+                }
                 Ok(())
             }
         }
